@@ -335,7 +335,7 @@ void QXmppExternalService::toXml(QXmlStreamWriter *writer) const
     }
 
     if (d->expires) {
-        writeOptionalXmlAttribute(writer, u"expires", d->expires->toString(Qt::ISODateWithMs));
+        writeOptionalXmlAttribute(writer, u"expires", QXmppUtils::datetimeToString(*d->expires));
     }
 
     if (d->name) {
